@@ -815,6 +815,10 @@ class History(System):
             s.T = a[1]
             return ('setT',)
         H0 = float(s.Hnet); T0 = float(s.T)
+        Hm = model_Hnet(st.n, st.phases, st.single, T0, P_REF)
+        if abs(H0 - Hm) > TOLERANCES['Hnet_rtol'] * max(abs(H0), abs(Hm), 1.0):
+            raise Violation('Hnet-definition', f'before {a[0]}: stream.Hnet = {H0!r} but sum n (Hf + h) of what the stream holds is {Hm!r}',
+                            match=dict(match, when='before'), residual=abs(H0 - Hm) / max(abs(Hm), 1.0))
         n_ref = rc.ref_apply(st.tree, st.n)
         if n_ref.min() < -1e-9: raise Rejected('harness:feed exhausted', cut=True)
         d0 = rc.rxn_digest(st.obj)
@@ -852,10 +856,257 @@ class History(System):
 
     def canon(self, st):
         s = st.tgt.stream
-        return (st.config, rc.rxn_digest(st.obj), tuple(fx.r12(x) for x in st.n.ravel()), fx.r12(s.T), fx.stream_digest(s)[2:4])
+        return (st.config, rc.rxn_digest(st.obj), tuple(fx.r12(x) for x in st.n.ravel()), fx.r12(s.T), fx.stream_digest(s)[2:])
 
     def nontrivial(self, st, a, obs): return st.moved and st.count >= 2
     def outcome(self, st, a, obs): return repr((st.config[0], st.config[2], st.config[3], a[0], obs[0], st.count >= 2))
 
 
-SYSTEMS = [DH(), DHSum(), DHHistory(), Iso(), Adiabatic(), History()]
+
+PROPS = ('C', 'S', 'F_vol', 'H')
+
+@rc.guard_build
+class CacheHistory(History):
+    """The stream memoises derived properties; the energy clauses must hold whatever was read before.  Alphabet: read Hnet; read
+    several OTHER properties (C, S, F_vol, H — each compared with a freshly built stream holding the same flows, phase, T, P);
+    isothermal call followed directly by Hnet, or by the other properties first and Hnet last; adiabatic call; set T; react a COPY
+    of the stream (copy taken now, i.e. after whatever was read) isothermally / adiabatically, check the copy, then re-check the
+    ORIGINAL (flows, T, Hnet against the model).  The memo (`_property_cache` and its key) is part of the canonical state."""
+    name = 'c06.history.cache'
+    def depth(self, tier): return 3 if tier == 'quick' else 5
+
+    def actions(self, st):
+        return [('readH',), ('readprops',), ('iso',), ('iso', 'props'), ('adia', 1e4), ('setT', 400.0), ('copy-iso',), ('copy-adia', 1e4)]
+
+    def _twin(self, st, s, n):
+        kind, items, tag, route = st.config
+        tk = 'M' if tag != 'none' else ('S.g' if s.phase == 'g' else 'S.l')
+        return Target(tk, n, st.phases, T=float(s.T), P=float(s.P)).stream
+
+    def _check_props(self, st, s, n, match, names=PROPS):
+        tw = self._twin(st, s, n)
+        for nm in names:
+            try: got, want = float(getattr(s, nm)), float(getattr(tw, nm))
+            except Exception as e:
+                raise Violation('unexpected-exception', f'{nm}: {type(e).__name__}: {e}', match=dict(match, exc=type(e).__name__, where=nm))
+            if abs(got - want) > 1e-9 * max(abs(want), 1.0):
+                raise Violation('stale-property', f'{nm} = {got!r}; a freshly built stream with the same flows, phase, T, P gives {want!r}',
+                                match=dict(match, prop=nm), residual=abs(got - want) / max(abs(want), 1.0))
+
+    def _check_Hnet(self, st, s, n, single, match, when):
+        H = float(s.Hnet); Hm = model_Hnet(n, st.phases, single, float(s.T), P_REF)
+        if abs(H - Hm) > TOLERANCES['Hnet_rtol'] * max(abs(H), abs(Hm), 1.0):
+            raise Violation('Hnet-definition', f'{when}: stream.Hnet = {H!r} but sum n (Hf + h) of what the stream holds is {Hm!r}',
+                            match=dict(match, when=when), residual=abs(H - Hm) / max(abs(Hm), 1.0))
+        return H
+
+    def step(self, st, a):
+        kind, items, tag, route = st.config
+        s = st.tgt.stream
+        op = a[0]
+        match = dict(kind=kind, tagged=tag != 'none', basis='mol' if route == 'mol' else 'wt', op='-'.join(str(x) for x in a[:2]) if len(a) > 1 and isinstance(a[1], str) else op)
+        st.moved = False
+        if op == 'readH':
+            self._check_Hnet(st, s, st.n, st.single, match, 'read')
+            return ('readH',)
+        if op == 'readprops':
+            self._check_props(st, s, st.n, match)
+            return ('readprops',)
+        if op == 'iso' and len(a) > 1:
+            # isothermal reaction, then OTHER properties first, Hnet last
+            H0 = self._check_Hnet(st, s, st.n, st.single, match, 'before')
+            n_ref = rc.ref_apply(st.tree, st.n)
+            if n_ref.min() < -1e-9: raise Rejected('harness:feed exhausted', cut=True)
+            try: st.obj(s)
+            except Exception as e:
+                raise Violation('unexpected-exception', f'{type(e).__name__}: {e}', match=dict(match, exc=type(e).__name__))
+            got = st.tgt.read()
+            if float(np.abs(got - n_ref).max()) > TOLERANCES['flow_rtol'] * max(1.0, float(np.abs(st.n).max())):
+                raise Violation('flows', 'flows differ from the reference', match=match)
+            self._check_props(st, s, got, match, names=('C', 'S', 'F_vol'))
+            self._check_Hnet(st, s, got, st.single, match, 'after-other-properties')
+            st.n = got; st.moved = True; st.count += 1
+            return ('iso-props',)
+        if op in ('copy-iso', 'copy-adia'):
+            n_ref = rc.ref_apply(st.tree, st.n)
+            if n_ref.min() < -1e-9: raise Rejected('harness:feed exhausted', cut=True)
+            T0 = float(s.T)
+            try:
+                c = s.copy()
+                H0c = float(c.Hnet)
+                if op == 'copy-iso': st.obj(c)
+                else: st.obj.adiabatic_reaction(c, a[1])
+                H1c = float(c.Hnet)
+            except RuntimeError as e:
+                if 'extrapolate' in str(e): raise Rejected('property model left its temperature range while solving for the outlet temperature', cut=True)
+                raise Violation('unexpected-exception', f'RuntimeError: {e}', match=dict(match, exc='RuntimeError'))
+            except Exception as e:
+                raise Violation('unexpected-exception', f'{type(e).__name__}: {e}', match=dict(match, exc=type(e).__name__))
+            Hm0 = model_Hnet(st.n, st.phases, st.single, T0, P_REF)
+            scale = max(abs(Hm0), 1.0)
+            if abs(H0c - Hm0) > TOLERANCES['Hnet_rtol'] * scale:
+                raise Violation('Hnet-definition', f'Hnet of the copy {H0c!r} differs from sum n (Hf + h) = {Hm0!r}', match=dict(match, when='copy'))
+            single_c = st.single if st.single is None else c.phase
+            T1 = float(c.T)
+            if 200.0 <= T1 <= 1500.0:
+                Hm1 = model_Hnet(n_ref, st.phases, single_c, T1, P_REF)
+                tol = TOLERANCES['adiabatic_factor'] * abs(float(c.C)) * TOLERANCES['T_tol'] + TOLERANCES['Hnet_rtol'] * scale
+                if abs(H1c - Hm1) > tol:
+                    raise Violation('Hnet-definition', f'after reacting the copy its Hnet is {H1c!r}; sum n (Hf + h) of what it holds is {Hm1!r}',
+                                    match=dict(match, when='copy-after'), residual=abs(H1c - Hm1) / scale)
+                if op == 'copy-adia' and abs(H1c - (H0c + a[1])) > tol:
+                    raise Violation('adiabatic', f'copy: Hnet after {H1c!r} != before {H0c!r} + Q', match=dict(match, how='balance'))
+            # the ORIGINAL is untouched
+            got = st.tgt.read()
+            if float(np.abs(got - st.n).max()) > 0 or float(s.T) != T0:
+                raise Violation('copy-independent', 'reacting a copy changed the flows / temperature of the original stream', match=match)
+            self._check_Hnet(st, s, st.n, st.single, match, 'original-after-copy')
+            # ... and so is a later copy
+            c2 = s.copy()
+            self._check_Hnet(st, c2, st.n, st.single, match, 'later-copy')
+            st.moved = True
+            return (op,)
+        return History.step(self, st, a)
+
+    def outcome(self, st, a, obs): return repr((st.config[0], st.config[2], st.config[3], a, obs[0]))
+
+
+RF_IDS = ('H2', 'O2', 'H2O', 'CH4', 'CO', 'CO2')
+RF_RXNS = [
+    # (definition dict, reactant, tags or None)
+    ({'CH4': -1, 'O2': -2, 'CO2': 1, 'H2O': 2}, 'CH4', None),
+    ({'CO': -1, 'H2O': -1, 'CO2': 1, 'H2': 1}, 'CO', None),
+    ({'CO': -1, 'O2': -0.5, 'CO2': 1}, 'O2', None),
+    ({'H2': -1, 'O2': -0.5, 'H2O': 1}, 'H2', {'H2': 'g', 'O2': 'g', 'H2O': 'l'}),
+    ({'CH4': -1, 'O2': -2, 'CO2': 1, 'H2O': 2}, 'CH4', {'CH4': 'g', 'O2': 'g', 'CO2': 'g', 'H2O': 'l'}),
+]
+
+@rc.guard_build
+class Refresh(System):
+    """A PRIVATE property package per execution (copies of the chemicals, own Thermo — nothing leaks): the heat of formation of a
+    chemical is revised the documented way (`chemical.Hf = value; chemicals.refresh_constants()`), before and/or after the reaction
+    object and the stream exist.  After every action: `rxn.dH == X * sum nu (Hf + latent) [/MW]`, `stream.Hf == sum n Hf`,
+    `stream.Hnet == sum n (Hf + h)`, all evaluated from each Chemical's OWN CURRENT Hf; isothermal / adiabatic calls close the balance
+    with those values."""
+    name = 'c06.refresh'
+    nontrivial_per_config = True
+    def warm(self): _load()
+    def reset_globals(self): rc.reset_reaction_globals()
+    def depth(self, tier): return 2 if tier == 'quick' else 4
+
+    def configs(self, tier, seed):
+        cfgs = [(i, route, T) for i in range(len(RF_RXNS)) for route in ('mol', 'wt') for T in ((T_REF, 400.0) if tier != 'quick' else (T_REF,))]
+        k = seed % len(cfgs)
+        return cfgs[k:] + cfgs[:k]
+
+    def build(self, config):
+        t = fx.tmo()
+        i, route, T = config
+        d, r, tags = RF_RXNS[i]
+        st = St(); st.config = config
+        base = rc.package('P').chemicals
+        chems = t.Chemicals([getattr(base, ID).copy(ID) for ID in RF_IDS])
+        st.thermo = t.Thermo(chems)
+        st.chems = st.thermo.chemicals
+        st.C = {c.ID: c for c in st.chems}
+        st.d, st.r, st.tags = d, r, tags
+        st.X = 0.5
+        st.rxn = rc.build_reaction(rc.as_string(d, tags), r, st.X, st.chems)
+        if route == 'wt': st.rxn.basis = 'wt'
+        st.wt = route == 'wt'
+        st.phases = tuple(sorted(set(tags.values()))) if tags else ()
+        flows = {ID: 0.5 for ID in RF_IDS}
+        flows['CO2'] = 100.0; flows[r] = 1.0
+        for k_, x in d.items():
+            if x < 0 and k_ != r: flows[k_] = 8.0 * abs(x) / abs(d[r])
+        if tags:
+            s = t.MultiStream(None, phases=st.phases, T=T, P=P_REF, thermo=st.thermo)
+            for ID, x in flows.items(): s.imol[tags.get(ID, 'g'), ID] = x
+        else:
+            s = t.Stream(None, phase='g', T=T, P=P_REF, thermo=st.thermo)
+            for ID, x in flows.items(): s.imol[ID] = x
+        st.s = s
+        st.edits = 0; st.reacted = 0
+        return st
+
+    # -- model, from the chemicals' own current values
+    def _latent(self, st, ID, phase):
+        c = st.C[ID]
+        lv = {'s': 0.0, 'l': float(c.Hfus), 'g': float(c.Hfus) + float(c.Hvap(298.15))}
+        return lv[phase] - lv[c.phase_ref]
+    def _dH(self, st):
+        tot = sum(nu / abs(st.d[st.r]) * (float(st.C[k].Hf) + (self._latent(st, k, st.tags[k]) if st.tags else 0.0)) for k, nu in st.d.items())
+        if st.wt: tot /= float(st.C[st.r].MW)
+        return st.X * tot
+    def _flows(self, st):
+        s = st.s
+        if st.tags: return {(p, ID): float(s.imol[p, ID]) for p in st.phases for ID in RF_IDS}
+        return {(s.phase, ID): float(s.imol[ID]) for ID in RF_IDS}
+    def _Hf(self, st, fl): return sum(x * float(st.C[ID].Hf) for (p, ID), x in fl.items())
+    def _Hnet(self, st, fl, T):
+        return sum(x * (float(st.C[ID].Hf) + float(st.C[ID].H(p, T, P_REF))) for (p, ID), x in fl.items() if x)
+
+    def actions(self, st):
+        prod = [k for k, x in st.d.items() if x > 0][0]
+        return [('check',), ('edit', prod, 1000.0), ('edit', st.r, -2500.0), ('edit', 'CO2', 500.0), ('iso',), ('adia', 1e4)]
+
+    def _readings(self, st, match):
+        s = st.s
+        fl = self._flows(st)
+        checks = (('dH', st.rxn.dH, self._dH(st)), ('stream.Hf', s.Hf, self._Hf(st, fl)), ('stream.Hnet', s.Hnet, self._Hnet(st, fl, float(s.T))))
+        for nm, got, want in checks:
+            if np.ndim(got) != 0 or abs(float(got) - want) > 1e-9 * max(abs(want), 1.0):
+                raise Violation('refreshed-constants', f'{nm} = {np.asarray(got).tolist()!r}; from the chemicals\' current heats of formation: {want!r}',
+                                match=dict(match, quantity=nm, edited=st.edits > 0), residual=abs(float(np.ravel(got)[0]) - want) / max(abs(want), 1.0))
+
+    def step(self, st, a):
+        i, route, T = st.config
+        op = a[0]
+        match = dict(op=op, tagged=bool(st.tags), basis=route)
+        s = st.s
+        try:
+            if op == 'edit':
+                c = st.C[a[1]]
+                c.Hf = float(c.Hf) + a[2]
+                st.chems.refresh_constants()
+                st.edits += 1
+            elif op in ('iso', 'adia'):
+                fl0 = self._flows(st); H0 = float(s.Hnet); Hf0 = float(s.Hf)
+                fed = fl0[(st.tags[st.r] if st.tags else s.phase, st.r)]
+                if st.wt: fed *= float(st.C[st.r].MW)
+                dH = float(st.rxn.dH)
+                if op == 'iso': st.rxn(s)
+                else: st.rxn.adiabatic_reaction(s, a[1])
+                st.reacted += 1
+                fl1 = self._flows(st)
+                if min(fl1.values()) < 0: raise Rejected('harness:feed exhausted', cut=True)
+                dHf_model = self._Hf(st, fl1) - self._Hf(st, fl0)
+                scale = max(abs(H0), 1.0)
+                if abs((float(s.Hf) - Hf0) - dHf_model) > 1e-9 * scale or abs(dHf_model - self._dH0(st) * fed) > 1e-9 * scale:
+                    raise Violation('refreshed-constants', f'formation enthalpy of the stream changed by {float(s.Hf) - Hf0!r}; sum dn Hf = {dHf_model!r}; '
+                                    f'X sum nu Hf * fed = {self._dH0(st) * fed!r}', match=dict(match, quantity='dHf', edited=st.edits > 0))
+                if op == 'adia':
+                    T1 = float(s.T)
+                    if not (200.0 <= T1 <= 1500.0): raise Rejected('outlet temperature outside [200, 1500] K', cut=True)
+                    tol = 10 * abs(float(s.C)) * 1e-6 + 1e-9 * scale
+                    if abs(float(s.Hnet) - (H0 + a[1])) > tol:
+                        raise Violation('adiabatic', f'Hnet after {float(s.Hnet)!r} != before {H0!r} + Q', match=dict(match, how='balance', edited=st.edits > 0))
+        except (Violation, Rejected): raise
+        except Exception as e:
+            raise Violation('unexpected-exception', f'{type(e).__name__}: {e}', match=dict(match, exc=type(e).__name__))
+        self._readings(st, match)
+        return (op, st.edits > 0)
+
+    def _dH0(self, st):
+        """X * sum nu Hf (no latent terms), per unit of reactant in the basis of the reaction"""
+        tot = sum(nu / abs(st.d[st.r]) * float(st.C[k].Hf) for k, nu in st.d.items())
+        if st.wt: tot /= float(st.C[st.r].MW)
+        return st.X * tot
+
+    def canon(self, st):
+        return (st.config, tuple(fx.r12(float(st.C[ID].Hf)) for ID in RF_IDS), tuple(fx.r12(float(x)) for x in np.ravel(st.chems.Hf)),
+                rc.rxn_digest(st.rxn), fx.stream_digest(st.s)[2:])
+    def nontrivial(self, st, a, obs): return st.edits > 0
+    def outcome(self, st, a, obs): return repr((st.config[0], st.config[1], a[0], min(st.edits, 2), min(st.reacted, 1)))
+
+SYSTEMS = [DH(), DHSum(), DHHistory(), Iso(), Adiabatic(), History(), CacheHistory(), Refresh()]
